@@ -31,6 +31,8 @@ def run(fx, rep, tier):
               "evaluation accumulators summed over a board the reader has limited to 16 men a side (within C16-BOUND's material)", "checked"),
              ("accumulators-need-material-bound", lambda site, fx: C.c_opimpl(site, fx),
               "the board comes from arbitrary text: without a limit on the men per side the accumulator sums overflow", "deny")] + list(extra)
+    extra = [("square-step-on-text", lambda site, fx: site.family == "arith" and C.in_fn(site, "Square::north", "Square::south", "Square::forward", "Square::backward"),
+              "stepping a square that comes from the text (any of the 64 squares) off the board: the `never steps off the board` belief of the search cone does not hold in the reader", "deny")] + list(extra)
     extra = [("no-king-invariant-for-text", lambda site, fx: site.family == "panic" and C.in_fn(site, "Bitboard::single"),
               "Bitboard::single asserts exactly one bit; a FEN may describe zero or several kings", "deny")] + list(extra)
     pC04.run_cone(fx, rep, "C06-CONE", [parse.name], set(), 30, extra_classes=extra,
@@ -38,6 +40,37 @@ def run(fx, rep, tier):
     rule_tables(fx, rep)
     rule_fields(fx, rep)
     rule_key(fx, rep)
+    rule_writer_cone(fx, rep)
+
+
+def rule_writer_cone(fx, rep):
+    """'Writing any legal position as FEN ...' must produce text in the first place: the panic sites in the cone of the FEN
+    writer are discharged with the C04 machinery. Two local beliefs: a run of empty squares in a rank is at most 8, and
+    `Square::from_idxs(file, rank)` gets indices below 8 (File / Rank values). A fixed-capacity text buffer (ArrayString) is a
+    capacity site like any other (seed C06-7a: 64 bytes for a placement field that can be 71 characters long)."""
+    import core
+    ws = [b for b in fx.fn_bodies() if norm(b.name) in ("chess::fen::fen_writer::write", "chess::fen::write") and "::tests::" not in b.name]
+    if not ws:
+        rep.notes.append("C06-WCONE: FEN writer not found; not decided")
+        rep.rule("C06-WCONE", 0, 0, True, "not decided")
+        return
+    extra = [("empty-run", lambda site, fx: site.family == "arith" and site.what == "Add" and "chess::fen::fen_writer::" in norm(site.body.name),
+              "a run of empty squares within one rank is at most 8", "belief"),
+             ("file-rank-index", lambda site, fx: site.family == "arith" and C.in_fn(site, "Square::from_idxs"),
+              "rank_idx * 8 + file_idx with both indices below 8 (File / Rank values)", "belief")]
+    sub = type(rep)(rep.prop, rep.tier)
+    q = core.QUIET
+    core.QUIET = True
+    try:
+        pC04.run_cone(fx, sub, "C06-WCONE", [w.name for w in ws], set(), 8, extra_classes=extra)
+    finally:
+        core.QUIET = q
+    for v in sub.violations:
+        rep.violation("C06-WCONE", v["key"], v["msg"] + " - in the FEN writer", v["site"])
+    rep.obligations += sub.obligations
+    rep.discharged += sub.discharged
+    r = sub.rules[-1]
+    rep.rule("C06-WCONE", r["instances"], 8, not sub.violations, "panic sites of the FEN writer (shared with C04-CONE)")
 
 
 def rule_key(fx, rep):
@@ -692,6 +725,10 @@ def rule_tables(fx, rep):
 P = "src/chess/fen/fen_parser.rs"
 W = "src/chess/fen/fen_writer.rs"
 MUTANTS = [
+    {"name": "reader steps the en-passant target one rank back without a rank check (seed C06-7b)", "expect": "C06-CONE/chess::square::Square::",
+     "edits": [("src/chess/fen/fen_parser.rs", "    let halfmove_clock = halfmove_clock.unwrap_or(0);", "    if let Some(target) = en_passant_target {\n        let pushed_pawn = target.backward(player);\n        if !board.pawns(player.other()).contains(pushed_pawn) {\n            return Err(nom::Err::Error(nom::error::Error::new(input, nom::error::ErrorKind::Verify)));\n        }\n    }\n    let halfmove_clock = halfmove_clock.unwrap_or(0);")]},
+    {"name": "placement field written into a 64-byte ArrayString (seed C06-7a)", "expect": "C06-WCONE",
+     "edits": [("src/chess/fen/fen_writer.rs", "        .map(|r| format_rank(&r))\n        .collect::<Vec<String>>()\n        .join(\"/\")", "        .map(|r| format_rank(&r))\n        .fold(arrayvec::ArrayString::<64>::new(), |mut acc, r| {\n            if !acc.is_empty() {\n                acc.push('/');\n            }\n            acc.push_str(&r);\n            acc\n        })\n        .to_string()")]},
     {"name": "from-scratch key leaves out the no-en-passant word (seed C06-6a)", "expect": "C06-KEY/SCRATCH/ep",
      "edits": [("src/chess/zobrist.rs", "    hash ^= en_passant(game.en_passant_target);", "    if game.en_passant_target.is_some() {\n        hash ^= en_passant(game.en_passant_target);\n    }")]},
     {"name": "constructor caps the halfmove clock at 100 (seed C06-4b)", "expect": "C06-FIELDS/install",
